@@ -1,26 +1,79 @@
-// Per-property entry points built on the `proto` and `chain` engines.
+// Per-property entry points built on the `proto`, `solo` and `chain` engines.
+use crate::proto::solo::{self, SoloCfg};
 use crate::proto::{self, cfg_b4, cfg_h3c, cfg_h4, chain, Cfg};
 use crate::util::{Report, Tier};
 use serde_json::json;
 
 fn common(rep: &mut Report) {
-    rep.assume("committee of 4 equal-stake authorities (f=1); bounded rounds / timer expiries / Byzantine creations as listed per configuration");
+    rep.assume("committee of 4 equal-stake authorities (f=1); bounded rounds / timer expiries / Byzantine creations / sequence depth as listed per configuration");
     rep.assume("local transitions are executions of the real Consensus::spawn stack on a paused current-thread tokio runtime over the in-memory transport; intra-node task hand-offs run in tokio's deterministic order");
     rep.assume("in-memory store actor with the reference semantics that check C16 establishes for the real store");
     rep.assume("certificate vote lists are treated as sets when messages and local states are identified (canon_certs)");
-    rep.set("explanation", json!("explicit-state BFS over global states (local state of every honest node + set of messages ever sent + budgets); every enabled delivery (incl. duplicates, reordering, arbitrary delay; loss = never delivered) and timer expiry is taken from every state; each local transition is the real node's quiescent reaction, memoised; monitors run on every local transition and on every global state"));
+    rep.set("explanation", json!("proto: explicit-state BFS over global states (local state of every honest node + set of messages ever sent + budgets); every enabled delivery (incl. duplicates, reordering, arbitrary delay; loss = never delivered), timer expiry and Byzantine creation is taken from every state; each local transition is the real node's quiescent reaction, memoised, and every rebuild of a node re-validates its whole input history. solo: BFS to a depth bound over the local states of one real node against an adversarial environment holding the other three keys (any block tree up to round R incl. unsafe TC-justified variants, certificates, optionally individual votes/timeouts, the node's own timer). chain: every chain shape x learning order delivered to one real node. Monitors run on every local transition and on every global state."));
 }
 
 fn h3c_all(r: u64, t: u8, tier: Tier) -> Vec<Cfg> {
     (0..4).map(|c| cfg_h3c(c, r, t, tier)).collect()
 }
 
+fn b4_all(r: u64, t: u8, k: u8, tier: Tier) -> Vec<Cfg> {
+    (0..4).map(|c| cfg_b4(c, r, t, k, tier)).collect()
+}
+
+/// solo configurations shared by the single-node properties
+fn solo_std(rep: &mut Report, property: &str, tier: Tier, with_aggregation: bool) {
+    let nodes: Vec<usize> = tier.pick(vec![0, 2], vec![0, 1, 2, 3]);
+    for &n in &nodes {
+        // blocks (incl. unsafe variants) + TC messages + timer
+        let mut sc: SoloCfg = solo::default_cfg(n, tier.pick(3, 4), tier);
+        sc.with_votes = false;
+        sc.with_timeouts = false;
+        sc.max_depth = tier.pick(4, 5);
+        solo::run(rep, property, "blocks+tcs", sc);
+    }
+    if with_aggregation {
+        for &n in &nodes {
+            // individual votes and timeouts of the others as well (smaller round bound)
+            let mut sc: SoloCfg = solo::default_cfg(n, 2, tier);
+            sc.with_votes = true;
+            sc.with_timeouts = true;
+            sc.max_depth = tier.pick(4, 5);
+            solo::run(rep, property, "blocks+votes+timeouts", sc);
+        }
+    }
+}
+
+pub fn c01(tier: Tier) -> i32 {
+    let mut rep = Report::new("C01", tier, "model_checking");
+    common(&mut rep);
+    let mut cfgs = match tier {
+        Tier::Quick => b4_all(3, 0, 1, tier),
+        Tier::Thorough => {
+            let mut v = b4_all(4, 0, 1, tier);
+            v.extend(b4_all(3, 1, 1, tier));
+            v.extend(b4_all(3, 0, 2, tier));
+            v
+        }
+    };
+    cfgs.push(cfg_h4(3, tier.pick(1, 2), tier));
+    if tier == Tier::Thorough {
+        cfgs.push(cfg_h4(4, 1, tier));
+        cfgs.extend(h3c_all(6, 6, tier));
+    } else {
+        cfgs.extend(h3c_all(5, 3, tier));
+    }
+    proto::run_configs(&mut rep, "C01", cfgs, 3);
+    rep.assume("the Byzantine member's behaviour is a menu (equivocating / stale / non-leader proposals on every certificate present on or formable from the wire, double votes, timeouts with the lowest and highest known QC, formable TCs), not arbitrary bytes; arbitrary bytes are C15's and C04's subject");
+    rep.finish()
+}
+
 pub fn c02(tier: Tier) -> i32 {
     let mut rep = Report::new("C02", tier, "model_checking");
     common(&mut rep);
     chain::run(&mut rep, "C02", tier);
+    solo_std(&mut rep, "C02", tier, false);
     let mut cfgs = match tier {
-        Tier::Quick => h3c_all(5, 4, tier),
+        Tier::Quick => h3c_all(5, 3, tier),
         Tier::Thorough => h3c_all(7, 6, tier),
     };
     cfgs.push(cfg_h4(3, tier.pick(1, 2), tier));
@@ -28,15 +81,181 @@ pub fn c02(tier: Tier) -> i32 {
     rep.finish()
 }
 
+pub fn c03(tier: Tier) -> i32 {
+    let mut rep = Report::new("C03", tier, "model_checking");
+    common(&mut rep);
+    solo_std(&mut rep, "C03", tier, true);
+    let mut cfgs = match tier {
+        Tier::Quick => vec![cfg_b4(3, 3, 0, 1, tier), cfg_b4(1, 3, 0, 1, tier)],
+        Tier::Thorough => {
+            let mut v = b4_all(4, 0, 1, tier);
+            v.extend(b4_all(3, 1, 1, tier));
+            v
+        }
+    };
+    cfgs.push(cfg_h4(3, tier.pick(1, 2), tier));
+    proto::run_configs(&mut rep, "C03", cfgs, 3);
+    rep.finish()
+}
+
 pub fn c05(tier: Tier) -> i32 {
     let mut rep = Report::new("C05", tier, "model_checking");
     common(&mut rep);
     chain::run(&mut rep, "C05", tier);
+    solo_std(&mut rep, "C05", tier, false);
     let mut cfgs = match tier {
-        Tier::Quick => h3c_all(5, 4, tier),
+        Tier::Quick => h3c_all(5, 3, tier),
         Tier::Thorough => h3c_all(7, 6, tier),
     };
     cfgs.push(cfg_h4(3, tier.pick(1, 2), tier));
     proto::run_configs(&mut rep, "C05", cfgs, 3);
     rep.finish()
+}
+
+pub fn c09(tier: Tier) -> i32 {
+    let mut rep = Report::new("C09", tier, "model_checking");
+    common(&mut rep);
+    crate::enumchecks::c09_leader(&mut rep, tier);
+    solo_std(&mut rep, "C09", tier, true);
+    let mut cfgs = match tier {
+        Tier::Quick => vec![cfg_b4(3, 3, 0, 1, tier), cfg_b4(0, 3, 0, 1, tier)],
+        Tier::Thorough => {
+            let mut v = b4_all(4, 0, 1, tier);
+            v.extend(b4_all(3, 1, 1, tier));
+            v
+        }
+    };
+    cfgs.push(cfg_h4(3, tier.pick(1, 2), tier));
+    if tier == Tier::Thorough {
+        cfgs.push(cfg_h4(2, 3, tier));
+    }
+    proto::run_configs(&mut rep, "C09", cfgs, 3);
+    rep.finish()
+}
+
+pub fn c10(tier: Tier) -> i32 {
+    let mut rep = Report::new("C10", tier, "model_checking");
+    common(&mut rep);
+    solo_std(&mut rep, "C10", tier, true);
+    let mut cfgs = vec![cfg_h4(3, tier.pick(1, 2), tier)];
+    cfgs.extend(match tier {
+        Tier::Quick => h3c_all(5, 3, tier),
+        Tier::Thorough => {
+            let mut v = h3c_all(6, 6, tier);
+            v.extend(b4_all(3, 1, 1, tier));
+            v
+        }
+    });
+    proto::run_configs(&mut rep, "C10", cfgs, 3);
+    rep.finish()
+}
+
+pub fn c19(tier: Tier) -> i32 {
+    let mut rep = Report::new("C19", tier, "model_checking");
+    common(&mut rep);
+    crate::seq_aggregator::run(&mut rep, tier);
+    solo_std(&mut rep, "C19", tier, true);
+    let mut cfgs = vec![cfg_h4(3, tier.pick(1, 2), tier)];
+    if tier == Tier::Thorough {
+        cfgs.push(cfg_h4(2, 3, tier));
+        cfgs.extend(b4_all(3, 1, 1, tier));
+    } else {
+        cfgs.push(cfg_b4(2, 3, 0, 1, tier));
+    }
+    proto::run_configs(&mut rep, "C19", cfgs, 3);
+    rep.finish()
+}
+
+fn unhex(s: &str) -> Vec<u8> {
+    (0..s.len() / 2).map(|i| u8::from_str_radix(&s[2 * i..2 * i + 2], 16).unwrap_or(0)).collect()
+}
+
+/// Re-execute a recorded counterexample on live real nodes, without any explorer, and re-evaluate
+/// the monitors. Exit 1 if the recorded property is violated again.
+pub fn replay(property: &str, path: &str) -> i32 {
+    use crate::proto::node::LiveNode;
+    use crate::proto::universe::{Ev, Universe};
+    use std::collections::BTreeMap;
+    use std::sync::Arc;
+    let v: serde_json::Value = match std::fs::read(path).ok().and_then(|d| serde_json::from_slice(&d).ok()) {
+        Some(v) => v,
+        None => {
+            eprintln!("cannot read replay file {}", path);
+            return 2;
+        }
+    };
+    let r = &v["replay"];
+    let w = Arc::new(crate::world::World::new(&[1, 1, 1, 1]));
+    let uni = Universe::new(w.clone(), true);
+    let mut hit = false;
+    let mut report = |node: usize, step: usize, desc: String, res: &crate::proto::node::StepResult| {
+        println!("step {:>2} n{}: {}", step, node, desc);
+        for f in &res.findings {
+            println!("         -> [{}:{}] {}", f.property, f.signature, f.what);
+        }
+    };
+    if r["kind"] == "global" {
+        let mut live: BTreeMap<usize, LiveNode> = BTreeMap::new();
+        for i in r["honest"].as_array().cloned().unwrap_or_default() {
+            let i = i.as_u64().unwrap() as usize;
+            live.insert(i, LiveNode::boot(&w, &uni, i).0);
+        }
+        for (k, e) in r["events_raw"].as_array().cloned().unwrap_or_default().iter().enumerate() {
+            let node = match e["node"].as_u64() {
+                Some(n) => n as usize,
+                None => continue,
+            };
+            let ev = if e["timer"] == true {
+                Ev::Timer
+            } else {
+                let m: consensus::verif::ConsensusMessage = bincode::deserialize(&unhex(e["deliver"].as_str().unwrap())).unwrap();
+                Ev::Deliver(uni.intern(m))
+            };
+            let ln = live.get_mut(&node).unwrap();
+            let res = ln.apply(&uni, ev);
+            let desc = match ev { Ev::Timer => "timer expires".to_string(), Ev::Deliver(m) => format!("deliver {}", uni.msg(m).desc) };
+            report(node, k, desc, &res);
+            hit |= res.findings.iter().any(|f| f.property == property);
+        }
+        // agreement across the live nodes
+        let nodes: Vec<usize> = live.keys().cloned().collect();
+        for a in &nodes {
+            for b in &nodes {
+                if a < b {
+                    for x in &live[a].hist.commits {
+                        for y in &live[b].hist.commits {
+                            if !(uni.is_ancestor(x, y) || uni.is_ancestor(y, x)) {
+                                println!("         -> [C01] n{} and n{} committed conflicting blocks", a, b);
+                                hit |= property == "C01";
+                            }
+                        }
+                    }
+                }
+            }
+        }
+    } else {
+        let node = r["node"].as_u64().unwrap_or(0) as usize;
+        let (mut ln, _) = LiveNode::boot(&w, &uni, node);
+        for (k, e) in r["events_raw"].as_array().cloned().unwrap_or_default().iter().enumerate() {
+            let e = e.as_str().unwrap_or("");
+            let ev = if e == "timer" {
+                Ev::Timer
+            } else {
+                let m: consensus::verif::ConsensusMessage = bincode::deserialize(&unhex(e)).unwrap();
+                Ev::Deliver(uni.intern(m))
+            };
+            let res = ln.apply(&uni, ev);
+            let desc = match ev { Ev::Timer => "timer expires".to_string(), Ev::Deliver(m) => format!("deliver {}", uni.msg(m).desc) };
+            report(node, k, desc, &res);
+            hit |= res.findings.iter().any(|f| f.property == property);
+        }
+        println!("delivered to the application: {} blocks", ln.hist.commits.len());
+    }
+    if hit {
+        println!("VIOLATION property={} replay={}", property, path);
+        1
+    } else {
+        println!("replay did not reproduce a violation of {}", property);
+        0
+    }
 }
